@@ -68,13 +68,13 @@ CHECKS = {
     "C11": dict(
         level="fault_enumeration",
         text="Real ECU + DBHandler on a simulated aiosqlite (real sqlite3 file, seeded per-statement latency so the writer lags) inside a real UDSScanner run; histories over every outcome class with crash/cancel points at arbitrary virtual instants; rows read back with sqlite3 and compared with the wire history.",
-        note="aiosqlite's thread proxy is replaced by a deterministic awaitable with the same API; no storage errors injected.",
+        note="aiosqlite's thread proxy is replaced by a deterministic awaitable with the same API; transient 'database is locked' errors only in separately counted configurations (row order not judged there).",
         technique="deterministic simulation with crash-point injection: slow storage worker, SIGINT/exception at arbitrary virtual instants; history check of rows vs wire log",
         ref="4/C11",
     ),
     "C12": dict(
         level="exploration",
-        text="Record phase (real ECU + DBHandler vs RandomUDSServer over the simulated network) then replay phase (real DBUDSServer on the recorded file); reply bytes compared position by position, presupposition monitor on state tracking; databases with several runs/ECUs.",
+        text="Record phase (real ECU + DBHandler vs RandomUDSServer over the simulated network) then replay phase (real DBUDSServer on the recorded file); reply bytes compared position by position, presupposition monitor on state tracking; databases with several runs/ECUs/addresses, a discovery run before the scans, replies lost or later than the tester's timeout, wall clock stepping backwards while recording.",
         note="Silent-row configuration is reported separately.",
         technique="deterministic simulation: two-phase record/replay on a virtual-time loop with simulated storage; position-wise byte comparison",
         ref="4/C12",
@@ -102,21 +102,21 @@ CHECKS = {
     ),
     "C16": dict(
         level="exploration",
-        text="The same seeds/arguments/histories are run in several fresh interpreters (different PYTHONHASHSEED, virtual epoch, polluted global random state, import order) and the model + transcript digests compared; model invariants (mandatory sessions/services, reachability, return path).",
-        note="Security-access seeds are masked (deliberately fresh) but must be answered and differ.",
+        text="The same seeds/arguments/histories are run in several fresh interpreters (different PYTHONHASHSEED, virtual epoch and pacing, wall clock stepping backwards, polluted global random state, import order, TZ, a sibling ECU with other arguments in the same process) and the model + transcript digests compared; model invariants (mandatory sessions/services, reachability, return path).",
+        note="Security-access seeds are masked (deliberately fresh); gaps stay below the 10 s inactivity limit in every environment.",
         technique="deterministic simulation across process environments: identical seeded histories in fresh interpreters, digest comparison",
         ref="4/C16",
     ),
     "C17": dict(
         level="exploration",
-        text="Real logging pipeline (QueueHandler, _ZstdFileHandler, zstd) with the consumer thread replaced by a stepped consumer whose lag the plan controls; producers log at planned instants, close at an arbitrary instant; all reader modes evaluated over the produced artifacts.",
+        text="Real logging pipeline (QueueHandler, _ZstdFileHandler, zstd) with the consumer thread replaced by a stepped consumer whose lag the plan controls; producers log at planned instants, close at an arbitrary instant; all reader modes evaluated over the produced artifacts (.zst, .gz, plain with / without / mixed priority prefix, stdin as a pipe with short reads).",
         note="Reader is a pure function of the file; it is evaluated as a history check over the simulated artifacts.",
         technique="deterministic simulation: stepped log consumer with seeded lag and close instant; history check of records read back in every reader mode",
         ref="4/C17",
     ),
     "C19": dict(
         level="fault_enumeration",
-        text="Line transports (client half, server loop, both) on the simulated network: every single split offset, byte-by-byte, random multi-split, coalescing of many messages per segment, read timeouts placed between two segments of one line, EOF at line boundary; sequence written = sequence read.",
+        text="Line transports (client half, server loop, both) on the simulated network: every single split offset, byte-by-byte, random multi-split, coalescing of many messages per segment, read timeouts placed between two segments of one line, reads without timeout, EOF at line boundary, a slow node (loop iterations that cost virtual time), a second tester on the same server loop, a peer that reads late; sequence written = sequence read.",
         note="Messages 1..4095 bytes; no byte corruption.",
         technique="deterministic simulation with fault injection: seeded segmentation/coalescing/timeout placement on simulated streams; sequence-equality oracle",
         ref="4/C19",
